@@ -26,7 +26,7 @@ func GenSeries(e *Env, n int, types []string) []*Series {
 	seen := map[string]bool{}
 	for len(out) < n {
 		s := &Series{Type: types[e.Draw(len(types))], Name: seriesNames[e.Draw(len(seriesNames))]}
-		nt := e.Draw(3)
+		nt := e.Draw(5)
 		used := map[int]bool{}
 		for i := 0; i < nt; i++ {
 			t := e.Draw(len(tagPool))
@@ -64,6 +64,10 @@ func decimal(e *Env, allowNeg bool) string {
 	case 3:
 		s = strconv.Itoa(e.Draw(1000000)) + "." + fmt.Sprintf("%06d", e.Draw(1000000))
 	}
+	if e.Chance(1, 12) {
+		// large offset, small spread (epoch-like values): exposes cancellation in one-pass formulas
+		s = "1000000" + fmt.Sprintf("%03d", e.Draw(4)) + "." + strconv.Itoa(e.Draw(10))
+	}
 	if allowNeg && e.Chance(1, 5) {
 		s = "-" + s
 	}
@@ -73,6 +77,15 @@ func decimal(e *Env, allowNeg bool) string {
 // GenDP draws one datapoint for series s sent by client source.
 func GenDP(e *Env, s *Series, source string, id int) DP {
 	d := DP{Type: s.Type, Name: s.Name, Tags: s.Tags, Source: source, ID: id}
+	if len(s.Tags) > 1 && e.Chance(1, 3) {
+		// clients need not send the tags of a series in the same order every time
+		t := append([]string(nil), s.Tags...)
+		for i := len(t) - 1; i > 0; i-- {
+			j := e.Draw(i + 1)
+			t[i], t[j] = t[j], t[i]
+		}
+		d.Tags = t
+	}
 	switch s.Type {
 	case "c":
 		if s.Pow2 {
